@@ -589,10 +589,45 @@ def h_zip(vf, node, fn, args):
     return Seq(min_term(a.n, b.n), lambda i: Tup([a.elem(i), b.elem(i)]), 'zip(%s,%s)' % (a.desc, b.desc), src=a.src)
 
 
+def nonneg_usize_poly(t):
+    """a polynomial all of whose coefficients are positive, over atoms that are unsigned quantities (the caller knows the type)"""
+    if T.is_num(t):
+        return T.numval(t) >= 0
+    if t[0] == 'sym' or T.is_app(t, 'len'):
+        return True
+    if t[0] != 'poly':
+        return False
+    return all(c[0] > 0 for m, c in t[1]) and all(a[0] == 'sym' or T.is_app(a, 'len') for m, c in t[1] for a, e in m)
+
+
+def umin(a, b):
+    """min of two unsigned quantities: decided when the difference is visibly non-negative"""
+    if nonneg_usize_poly(T.sub(b, a)):
+        return a
+    if nonneg_usize_poly(T.sub(a, b)):
+        return b
+    return min_term(a, b)
+
+
+@reg('ITER', 'std::iter::Iterator::by_ref')
+def h_by_ref(vf, node, fn, args):
+    return args[0]          # `&mut iterator`: the place itself; adaptors that consume through it write the remainder back
+
+
 @reg('ITER', 'std::iter::Iterator::take')
 def h_take(vf, node, fn, args):
-    s = vf.as_seq(args[0], node)
     k = tt(vf, args[1])
+    r = args[0]
+    if isinstance(r, Ref):
+        cur = vf.read(r.place)
+        ct = cur if isinstance(cur, T.Tm) else None
+        if ct is not None and T.is_app(ct, 'range') and len(ct[2]) == 2:
+            # range.by_ref().take(k): yields the first min(k, len) elements and leaves the rest in the range
+            lo, hi = ct[2]
+            m = umin(k, T.sub(hi, lo))
+            vf.write(r.place, T.app('range', T.add(lo, m), hi))
+            return Seq(m, lambda i: T.add(lo, i), 'take(range)', src=None)
+    s = vf.as_seq(args[0], node)
     return Seq(min_term(s.n, k), s.elem, 'take(%s)' % s.desc, src=s.src)
 
 
